@@ -149,8 +149,22 @@ def install(message_stub=True, set_shim=True):
 
     _orig_new = ObjectMeta.__new__
 
+    from crosshair import realize as _ch_realize
+
     @functools.wraps(_orig_new)
     def _new(mcs, name, bases, classdict, **kw):
+        # names must be real `str` objects before the untraced type() call (symbolic class / attribute
+        # names are realised here; they would be realised by type.__new__ / dict hashing anyway)
+        name = _ch_realize(name)
+        props = getattr(classdict, "properties", None)
+        if props:
+            items = [(_ch_realize(k), val) for k, val in props.items()]
+            props.clear()
+            for k, val in items:
+                props[k] = val
+                # _Property.bind() (called from the untraced constructor) tests `source` for truth
+                if getattr(val, "source", None) is not None:
+                    val.source = _ch_realize(val.source)
         with NoTracing():
             return _orig_new(mcs, name, bases, classdict, **kw)
 
